@@ -847,8 +847,7 @@ macro_rules! apply_binary_shape {
     };
 }
 // left byte aligned, right shifted: one word + 6-bit remainder
-// (not yet run under load: thorough until confirmed)
-// @unit name=apply_binary_op_8_5_70 props=C19 kind=bounded tier=thorough bound=buffers=24_bytes_shape=(loff=8,roff=5,len=70) timeout=300
+// @unit name=apply_binary_op_8_5_70 props=C19 kind=bounded bound=buffers=24_bytes_shape=(loff=8,roff=5,len=70) timeout=300
 //       fns=apply_bitwise_binary_op,byte_aligned_bitwise_bin_op_helper,handle_mutable_buffer_remainder,U64UnalignedSlice::split,U64UnalignedSlice::zip_modify
 apply_binary_shape!(apply_binary_op_8_5_70, 8, 5, 70);
 // head chunk only, ends inside the first byte
